@@ -1333,6 +1333,169 @@ it3
 //@after "M.backshift_colptrs();"
         proof { lemma_bd_final(ms, st, K4, M); }
 //@end
+//@fn file=src/algebra/csc/block_concatenate.rs in="BlockConcatenate for CscMatrix<T>" name=hcat rules=R1 ret=r
+//@contract
+    requires A.m == B.m ==> cat_ok(*A, *B),
+    ensures
+        // C16: [A B]: rejected iff the heights differ; otherwise the columns of A followed by the columns of B, entries and order kept
+        r is Ok <==> A.m == B.m,
+        r matches Ok(R) ==> hcat_post(*A, *B, R),
+//@pre
+        proof {
+            assert forall|g: Seq<&[&CscMatrix<F>]>| is_hgrid(g, A, B) implies (#[trigger] grid_ok(g) <==> A.m == B.m) && (grid_ok(g) ==> hv_pre(g)) by { lemma_hgrid(g, A, B); }
+        }
+//@post
+        proof {
+            assert forall|g: Seq<&[&CscMatrix<F>]>, R: CscMatrix<F>| is_hgrid(g, A, B) && A.m == B.m && cat_ok(*A, *B) && #[trigger] hv_post(g, R) implies hcat_post(*A, *B, R) by { lemma_hcat_post(g, A, B, R); }
+        }
+//@end
+//@fn file=src/algebra/csc/block_concatenate.rs in="BlockConcatenate for CscMatrix<T>" name=vcat rules=R1 ret=r
+//@contract
+    requires A.n == B.n ==> cat_ok(*A, *B),
+    ensures
+        // C16: [A; B]: rejected iff the widths differ; otherwise column c holds the entries of column c of A, then those of column c of B (rows shifted by A.m)
+        r is Ok <==> A.n == B.n,
+        r matches Ok(R) ==> vcat_post(*A, *B, R),
+//@pre
+        proof {
+            assert forall|g: Seq<&[&CscMatrix<F>]>| is_vgrid(g, A, B) implies (#[trigger] grid_ok(g) <==> A.n == B.n) && (grid_ok(g) ==> hv_pre(g)) by { lemma_vgrid(g, A, B); }
+        }
+//@post
+        proof {
+            assert forall|g: Seq<&[&CscMatrix<F>]>, R: CscMatrix<F>| is_vgrid(g, A, B) && A.n == B.n && cat_ok(*A, *B) && #[trigger] hv_post(g, R) implies vcat_post(*A, *B, R) by { lemma_vcat_post(g, A, B, R); }
+        }
+//@end
+//@fn file=src/algebra/csc/block_concatenate.rs in="BlockConcatenate for CscMatrix<T>" name=hvcat rules=R1,R18,R30,zipidx:1=i;2=i;3=i;4=i;6=i;8=i ret=r
+//@contract
+    requires grid_ok(mats@) ==> hv_pre(mats@),
+    ensures
+        // C16: a block grid with inconsistent shapes is rejected, a consistent one is concatenated
+        r is Ok <==> grid_ok(mats@),
+        // C16 (general block concatenation; hcat and vcat are the 1 x 2 and 2 x 1 cases): block (q, p) occupies rows rs(q).. and
+        // columns cs(p)..; inside a column the entries of the block rows follow one another, each block's entries in their order
+        r matches Ok(R) ==> hv_post(mats@, R),
+//@pre
+        let ghost g = mats@;
+        let ghost nr = mats@.len() as int;
+        let ghost nc = mats@[0]@.len() as int;
+//@after "hvcat_dim_check(mats)?;"
+        proof { assert(mats@.len() == mats.len()); assert(mats@[0]@.len() == mats[0].len()); }
+//@iter 1
+it0
+//@loop 1
+            invariant
+                it0.seq().len() == r14_n1, range_from_u(it0.seq(), 0), r14_n1 == nr, g == mats@, nr == g.len(), hv_pre(g),
+                r30_s1 == hv_rs(g, it0.index@ as int),
+//@body_start 1
+            proof { let k = it0.index@ as int; lemma_hv_block(g, k, 0); lemma_hv_mono(g, k + 1, nr); }
+//@iter 2
+it1
+//@loop 2
+            invariant
+                it1.seq().len() == r14_n2, range_from_u(it1.seq(), 0), r14_n2 == nc, g == mats@, nc == g[0]@.len(), nr == g.len(), hv_pre(g),
+                r30_s2 == hv_cs(g, it1.index@ as int),
+//@body_start 2
+            proof { let k = it1.index@ as int; lemma_hv_block(g, 0, k); lemma_hv_mono(g, k + 1, nc); }
+//@iter 3
+it2
+//@loop 3
+            invariant
+                it2.seq().len() == r14_n3, range_from_u(it2.seq(), 0), r14_n3 == nr, g == mats@, nc == g[0]@.len(), nr == g.len(), hv_pre(g),
+                nnzM == hv_tot(g, it2.index@ as int), hv_maxok(g, it2.index@ as int, 0, maxblocknnz as int),
+//@body_start 3
+            let ghost gq = it2.index@ as int;
+            proof { lemma_hv_block(g, gq, 0); }
+//@iter 4
+it3
+//@loop 4
+                invariant
+                    it3.seq().len() == r14_n4, range_from_u(it3.seq(), 0), r14_n4 == nc, g == mats@, nc == g[0]@.len(), nr == g.len(), hv_pre(g),
+                    0 <= gq < nr, blockrow@ == g[gq]@,
+                    nnzM == hv_tot(g, gq) + hv_rownnz(g, gq, it3.index@ as int), hv_maxok(g, gq, it3.index@ as int, maxblocknnz as int),
+//@body_start 4
+                let ghost gp = it3.index@ as int;
+                proof {
+                    lemma_hv_block(g, gq, gp);
+                    lemma_hv_rownnz_mono(g, gq, gp + 1, nc); lemma_hv_tot_mono(g, gq + 1, nr); lemma_hv_tot_mono(g, gq, gq); lemma_hv_tot_base(g);
+                    lemma_hv_rownnz_mono(g, gq, gp, gp);
+                }
+//@before "let mut M ="
+        proof { lemma_hv_tot_base(g); }
+//@before "let mut currentcol = 0;" #1
+        proof {
+            assert(hv_counts(g, M.colptr@, 0, 0)) by {
+                assert forall|p1: int, l: int| #[trigger] hslot(p1, l) && 0 <= p1 < nc && 0 <= l < g[0]@[p1].n implies M.colptr@[hv_cs(g, p1) + l] == hv_cnt(g, p1, l, hv_done(p1, 0, 0, nr)) by {
+                    lemma_hv_block(g, 0, p1); lemma_hv_mono(g, p1 + 1, nc); lemma_hv_mono(g, p1, p1);
+                }
+            }
+        }
+//@iter 5
+it4
+//@loop 5
+            invariant
+                it4.seq().len() == nc, range_from_u(it4.seq(), 0), g == mats@, nc == g[0]@.len(), nr == g.len(), hv_pre(g),
+                currentcol == hv_cs(g, it4.index@ as int), hv_counts(g, M.colptr@, it4.index@ as int, 0),
+                M.m == hv_rs(g, nr), M.n == hv_cs(g, nc), M.rowval@.len() == hv_base(g, nc), M.nzval@.len() == hv_base(g, nc),
+//@body_start 5
+            let ghost gp = it4.index@ as int;
+//@iter 6
+it5
+//@loop 6
+                invariant
+                    it5.seq().len() == r14_n5, range_from_u(it5.seq(), 0), r14_n5 == nr, g == mats@, nc == g[0]@.len(), nr == g.len(), hv_pre(g),
+                    0 <= gp < nc, i == gp, currentcol == hv_cs(g, gp), hv_counts(g, M.colptr@, gp, it5.index@ as int),
+                    M.m == hv_rs(g, nr), M.n == hv_cs(g, nc), M.rowval@.len() == hv_base(g, nc), M.nzval@.len() == hv_base(g, nc),
+//@body_start 6
+                let ghost gq = it5.index@ as int;
+                let ghost cp1 = M.colptr@;
+                proof { lemma_hv_block(g, gq, gp); lemma_hv_count_pre(g, cp1, gp, gq); }
+//@after "M.colcount_block(blockrow[i], currentcol, MatrixShape::N);"
+                proof { lemma_hv_count_step(g, cp1, M.colptr@, gp, gq); }
+//@before "currentcol += mats[0][i].ncols();" #1
+            proof { lemma_hv_counts_next(g, M.colptr@, gp); lemma_hv_block(g, 0, gp); lemma_hv_mono(g, gp + 1, nc); }
+//@before "M.colcount_to_colptr();"
+        let ghost cnt = M.colptr@;
+        proof { lemma_hv_total(g, cnt); }
+//@after "M.colcount_to_colptr();"
+        let ghost st = M.colptr@;
+        proof {
+            assert(hv_starts_ok(g, st)) by {
+                assert forall|p: int, l: int| #[trigger] hslot(p, l) && 0 <= p < nc && 0 <= l <= g[0]@[p].n implies st[hv_cs(g, p) + l] == hv_st(g, p, l) by {
+                    lemma_hv_starts(g, cnt, p, l); lemma_hv_block(g, 0, p); lemma_hv_mono(g, p + 1, nc); lemma_hv_mono(g, p, p);
+                }
+            }
+            assert(hv_filled(g, st, M, 0, 0));
+        }
+//@iter 7
+it6
+//@loop 7
+            invariant
+                it6.seq().len() == nc, range_from_u(it6.seq(), 0), g == mats@, nc == g[0]@.len(), nr == g.len(), hv_pre(g),
+                currentcol == hv_cs(g, it6.index@ as int), hv_starts_ok(g, st), hv_filled(g, st, M, it6.index@ as int, 0), st[0] == 0,
+                M.m == hv_rs(g, nr), M.n == hv_cs(g, nc), hv_maxok(g, nr, 0, dummymap@.len() as int),
+//@body_start 7
+            let ghost gp = it6.index@ as int;
+//@iter 8
+it7
+//@loop 8
+                invariant
+                    it7.seq().len() == r14_n6, range_from_u(it7.seq(), 0), r14_n6 == nr, g == mats@, nc == g[0]@.len(), nr == g.len(), hv_pre(g),
+                    0 <= gp < nc, i == gp, currentcol == hv_cs(g, gp), currentrow == hv_rs(g, it7.index@ as int),
+                    hv_starts_ok(g, st), hv_filled(g, st, M, gp, it7.index@ as int), st[0] == 0,
+                    M.m == hv_rs(g, nr), M.n == hv_cs(g, nc), hv_maxok(g, nr, 0, dummymap@.len() as int),
+//@body_start 8
+                let ghost gq = it7.index@ as int;
+                let ghost K1 = M;
+                proof { lemma_hv_block(g, gq, gp); lemma_hv_fill_pre(g, st, K1, gp, gq); lemma_hv_mono(g, gq + 1, nr); }
+//@after "M.fill_block("
+                proof { lemma_hv_fill_step(g, st, K1, M, dummymap@, gp, gq); }
+//@before "currentcol += mats[0][i].ncols();" #2
+            proof { lemma_hv_filled_next(g, st, M, gp); lemma_hv_block(g, 0, gp); lemma_hv_mono(g, gp + 1, nc); }
+//@before "M.backshift_colptrs();"
+        let ghost K4 = M;
+//@after "M.backshift_colptrs();"
+        proof { lemma_hv_final(g, st, K4, M); }
+//@end
 }
 
 //@fn file=src/algebra/matrix_traits.rs name=hvcat_dim_check rules=R3,tparam:MAT>CscF ret=r
@@ -2428,6 +2591,457 @@ pub proof fn lemma_hv_fubini(g: Seq<&[&CscMatrix<F>]>, q: int, p: int)
 // sum over the q x p top-left sub-grid, two ways
 pub open spec fn hv_part_rows(g: Seq<&[&CscMatrix<F>]>, q: int, p: int) -> int decreases q { if q <= 0 { 0 } else { hv_part_rows(g, q - 1, p) + hv_rownnz(g, q - 1, p) } }
 pub open spec fn hv_part_cols(g: Seq<&[&CscMatrix<F>]>, q: int, p: int) -> int decreases p { if p <= 0 { 0 } else { hv_part_cols(g, q, p - 1) + hv_colnnz(g, p - 1, q) } }
+
+
+// ---- hvcat: the counting pass and the fill pass (block columns outermost, block rows inside) ----
+// names local column l of block column p: the trigger of the per-column clauses below (an index term with arithmetic in it
+// is not a trigger Z3 matches reliably); uses of those clauses assert hslot(p, l) to instantiate them
+pub open spec fn hslot(p: int, l: int) -> bool { true }
+// number of block rows already handled in block column p1 when the loops stand at (block column p, block row q)
+pub open spec fn hv_done(p1: int, p: int, q: int, nr: int) -> int { if p1 < p { nr } else if p1 == p { q } else { 0 } }
+pub open spec fn hv_counts(g: Seq<&[&CscMatrix<F>]>, cp: Seq<usize>, p: int, q: int) -> bool {
+    let nr = g.len() as int; let nc = g[0]@.len() as int;
+    &&& cp.len() == hv_cs(g, nc) + 1
+    &&& forall|p1: int, l: int| #[trigger] hslot(p1, l) && 0 <= p1 < nc && 0 <= l < g[0]@[p1].n ==> cp[hv_cs(g, p1) + l] == hv_cnt(g, p1, l, hv_done(p1, p, q, nr))
+    &&& cp[hv_cs(g, nc)] == 0
+}
+pub proof fn lemma_hv_block(g: Seq<&[&CscMatrix<F>]>, q: int, p: int)
+    requires hv_pre(g), 0 <= q < g.len(), 0 <= p < g[0]@.len(),
+    ensures bd_blk_ok(*g[q]@[p]), g[q]@[p].n == g[0]@[p].n, g[q]@[p].m == g[q]@[0].m, g[q]@.len() == g[0]@.len(),
+        hv_cs(g, p + 1) == hv_cs(g, p) + g[0]@[p].n, hv_rs(g, q + 1) == hv_rs(g, q) + g[q]@[0].m,
+{
+    assert(g[q]@.len() == g[0]@.len());
+    let M = g[q]@[p];
+    assert(M.n == g[0]@[p].n && M.m == g[q]@[0].m);
+    assert(bd_blk_ok(*M));
+}
+// column (p1, l) lies outside the column range of another block column p
+pub proof fn lemma_hv_col_sep(g: Seq<&[&CscMatrix<F>]>, p1: int, l: int, p: int)
+    requires hv_pre(g), 0 <= p1 < g[0]@.len(), 0 <= l < g[0]@[p1].n, 0 <= p < g[0]@.len(), p1 != p,
+    ensures !(hv_cs(g, p) <= hv_cs(g, p1) + l < hv_cs(g, p) + g[0]@[p].n), 0 <= hv_cs(g, p1) + l < hv_cs(g, g[0]@.len() as int),
+{
+    let nc = g[0]@.len() as int;
+    lemma_hv_block(g, 0, p1); lemma_hv_block(g, 0, p);
+    lemma_hv_mono(g, p1, p1); lemma_hv_mono(g, p1 + 1, nc);
+    if p1 < p { lemma_hv_mono(g, p1 + 1, p); } else { lemma_hv_mono(g, p + 1, p1); }
+}
+pub proof fn lemma_hv_cnt_le(g: Seq<&[&CscMatrix<F>]>, p: int, l: int, q: int)
+    requires hv_pre(g), 0 <= p < g[0]@.len(), 0 <= q <= g.len(), 0 <= l < g[0]@[p].n,
+    ensures 0 <= hv_cnt(g, p, l, q) <= hv_colnnz(g, p, q),
+    decreases q,
+{
+    if q > 0 {
+        lemma_hv_cnt_le(g, p, l, q - 1);
+        lemma_hv_block(g, q - 1, p);
+        let M = *g[q - 1]@[p];
+        assert(M.colptr@[0] <= M.colptr@[l] <= M.colptr@[l + 1] <= M.colptr@[M.n as int]);
+    }
+}
+// what colcount_block asks of the counts before block (q, p) is added
+#[verifier::spinoff_prover]
+pub proof fn lemma_hv_count_pre(g: Seq<&[&CscMatrix<F>]>, cp: Seq<usize>, p: int, q: int)
+    requires hv_pre(g), 0 <= p < g[0]@.len(), 0 <= q < g.len(), hv_counts(g, cp, p, q),
+    ensures
+        g[q]@[p].colptr@.len() == g[q]@[p].n + 1, cp.len() >= hv_cs(g, p) + g[q]@[p].n, 0 <= hv_cs(g, p),
+        forall|i: int| 0 <= i < g[q]@[p].n ==> g[q]@[p].colptr@[i] <= #[trigger] g[q]@[p].colptr@[i + 1],
+        forall|i: int| 0 <= i < g[q]@[p].n ==> #[trigger] cp[hv_cs(g, p) + i] + g[q]@[p].colptr@[g[q]@[p].n as int] <= usize::MAX,
+{
+    let nr = g.len() as int; let nc = g[0]@.len() as int; let M = *g[q]@[p];
+    lemma_hv_block(g, q, p);
+    lemma_hv_mono(g, p + 1, nc); lemma_hv_mono(g, p, p);
+    lemma_hv_colnnz_mono(g, p, q + 1, nr); lemma_hv_base_mono(g, p + 1, nc); lemma_hv_base_mono(g, p, p);
+    assert forall|i: int| 0 <= i < M.n implies #[trigger] cp[hv_cs(g, p) + i] + M.colptr@[M.n as int] <= usize::MAX by {
+        assert(hslot(p, i));
+        lemma_hv_cnt_le(g, p, i, q);
+    }
+}
+#[verifier::spinoff_prover]
+pub proof fn lemma_hv_count_step(g: Seq<&[&CscMatrix<F>]>, cp1: Seq<usize>, cp2: Seq<usize>, p: int, q: int)
+    requires
+        hv_pre(g), 0 <= p < g[0]@.len(), 0 <= q < g.len(), hv_counts(g, cp1, p, q), cp2.len() == cp1.len(),
+        colptr_same_except(cp2, cp1, hv_cs(g, p), hv_cs(g, p) + g[q]@[p].n),
+        forall|i: int| 0 <= i < g[q]@[p].n ==> #[trigger] cp2[hv_cs(g, p) + i] == cp1[hv_cs(g, p) + i] + (g[q]@[p].colptr@[i + 1] - g[q]@[p].colptr@[i]),
+    ensures hv_counts(g, cp2, p, q + 1),
+{
+    let nr = g.len() as int; let nc = g[0]@.len() as int; let M = *g[q]@[p];
+    lemma_hv_block(g, q, p);
+    lemma_hv_mono(g, p + 1, nc); lemma_hv_mono(g, p, p);
+    assert forall|p1: int, l: int| #[trigger] hslot(p1, l) && 0 <= p1 < nc && 0 <= l < g[0]@[p1].n implies cp2[hv_cs(g, p1) + l] == hv_cnt(g, p1, l, hv_done(p1, p, q + 1, nr)) by {
+        assert(cp1[hv_cs(g, p1) + l] == hv_cnt(g, p1, l, hv_done(p1, p, q, nr)));
+        if p1 == p {
+            assert(cp2[hv_cs(g, p) + l] == cp1[hv_cs(g, p) + l] + (M.colptr@[l + 1] - M.colptr@[l]));
+            assert(hv_cnt(g, p, l, q + 1) == hv_cnt(g, p, l, q) + pcnt(*g[q]@[p], l));
+        } else {
+            lemma_hv_col_sep(g, p1, l, p);
+            assert(cp2[hv_cs(g, p1) + l] == cp1[hv_cs(g, p1) + l]);
+        }
+    }
+    assert(cp2[hv_cs(g, nc)] == cp1[hv_cs(g, nc)]);
+}
+// finishing a block column = standing at the top of the next one
+pub proof fn lemma_hv_counts_next(g: Seq<&[&CscMatrix<F>]>, cp: Seq<usize>, p: int)
+    requires hv_counts(g, cp, p, g.len() as int), g.len() >= 1,
+    ensures hv_counts(g, cp, p + 1, 0),
+{
+    let nr = g.len() as int; let nc = g[0]@.len() as int;
+    assert forall|p1: int, l: int| #[trigger] hslot(p1, l) && 0 <= p1 < nc && 0 <= l < g[0]@[p1].n implies cp[hv_cs(g, p1) + l] == hv_cnt(g, p1, l, hv_done(p1, p + 1, 0, nr)) by {
+        assert(hv_done(p1, p + 1, 0, nr) == hv_done(p1, p, nr, nr));
+    }
+}
+// the prefix sums of the finished counts are the column starts
+pub proof fn lemma_hv_starts(g: Seq<&[&CscMatrix<F>]>, cnt: Seq<usize>, p: int, l: int)
+    requires hv_pre(g), hv_counts(g, cnt, g[0]@.len() as int, 0), 0 <= p < g[0]@.len(), 0 <= l <= g[0]@[p].n,
+    ensures sum_upto(cnt, hv_cs(g, p) + l) == hv_st(g, p, l),
+    decreases p, l,
+{
+    let nr = g.len() as int; let nc = g[0]@.len() as int;
+    lemma_hv_block(g, 0, p);
+    lemma_hv_mono(g, p, p);
+    if l > 0 {
+        lemma_hv_starts(g, cnt, p, l - 1);
+        assert(hslot(p, l - 1));
+        assert(cnt[hv_cs(g, p) + (l - 1)] == hv_cnt(g, p, l - 1, nr));
+        lemma_hv_cnt_cps(g, p, l - 1, nr);
+        assert(sum_upto(cnt, hv_cs(g, p) + l) == sum_upto(cnt, hv_cs(g, p) + l - 1) + cnt[hv_cs(g, p) + l - 1]);
+    } else if p > 0 {
+        lemma_hv_block(g, 0, p - 1);
+        lemma_hv_starts(g, cnt, p - 1, g[0]@[p - 1].n as int);
+        lemma_hv_st_mono(g, p - 1, 0, 0);
+        lemma_hv_st_mono(g, p, 0, 0);
+    } else {
+        lemma_hv_st_mono(g, 0, 0, 0);
+        assert(hv_base(g, 0) == 0);
+        assert(hv_cs(g, 0) == 0);
+    }
+}
+pub proof fn lemma_hv_total(g: Seq<&[&CscMatrix<F>]>, cnt: Seq<usize>)
+    requires hv_pre(g), hv_counts(g, cnt, g[0]@.len() as int, 0),
+    ensures sum_upto(cnt, cnt.len() as int) == hv_base(g, g[0]@.len() as int),
+{
+    let nc = g[0]@.len() as int;
+    lemma_hv_block(g, 0, nc - 1);
+    lemma_hv_starts(g, cnt, nc - 1, g[0]@[nc - 1].n as int);
+    lemma_hv_st_mono(g, nc - 1, 0, 0);
+    let n = hv_cs(g, nc);
+    assert(cnt[n] == 0);
+    assert(sum_upto(cnt, n + 1) == sum_upto(cnt, n) + cnt[n]);
+}
+// every column belongs to a block column
+pub proof fn lemma_hv_col_block(g: Seq<&[&CscMatrix<F>]>, k: int, c: int) -> (pl: (int, int))
+    requires 0 <= k <= g[0]@.len(), 0 <= c < hv_cs(g, k),
+    ensures 0 <= pl.0 < k, 0 <= pl.1 < g[0]@[pl.0].n, hv_cs(g, pl.0) + pl.1 == c,
+    decreases k,
+{
+    lemma_hv_mono(g, k - 1, k - 1);
+    if c >= hv_cs(g, k - 1) { (k - 1, c - hv_cs(g, k - 1)) } else { lemma_hv_col_block(g, k - 1, c) }
+}
+// the blocks visited so far (row-major up to (q, p)) have at most mx entries each
+pub open spec fn hv_maxok(g: Seq<&[&CscMatrix<F>]>, q: int, p: int, mx: int) -> bool {
+    forall|q1: int, p1: int| 0 <= q1 < g.len() && 0 <= p1 < g[0]@.len() && (q1 < q || (q1 == q && p1 < p)) ==> (#[trigger] g[q1]@[p1]).rowval@.len() <= mx
+}
+pub open spec fn hv_starts_ok(g: Seq<&[&CscMatrix<F>]>, st: Seq<usize>) -> bool {
+    forall|p: int, l: int| #[trigger] hslot(p, l) && 0 <= p < g[0]@.len() && 0 <= l <= g[0]@[p].n ==> st[hv_cs(g, p) + l] == hv_st(g, p, l)
+}
+// slot of entry j (local column l) of block (q, p)
+pub open spec fn hv_slot(g: Seq<&[&CscMatrix<F>]>, q: int, p: int, l: int, j: int) -> int {
+    hv_st(g, p, l) + hv_cnt(g, p, l, q) + (j - g[q]@[p].colptr@[l])
+}
+// state of the fill pass at (block column p, block row q); `st` = the column starts produced by colcount_to_colptr
+pub open spec fn hv_filled(g: Seq<&[&CscMatrix<F>]>, st: Seq<usize>, K: CscMatrix<F>, p: int, q: int) -> bool {
+    let nr = g.len() as int; let nc = g[0]@.len() as int;
+    &&& K.arrays_ok() && K.colptr@.len() == st.len() && st.len() == hv_cs(g, nc) + 1 && K.rowval@.len() == hv_base(g, nc)
+    &&& forall|p1: int, l: int| #[trigger] hslot(p1, l) && 0 <= p1 < nc && 0 <= l < g[0]@[p1].n ==> K.colptr@[hv_cs(g, p1) + l] == st[hv_cs(g, p1) + l] + hv_cnt(g, p1, l, hv_done(p1, p, q, nr))
+    &&& K.colptr@[hv_cs(g, nc)] == st[hv_cs(g, nc)]
+    &&& forall|q1: int, p1: int, l: int, j: int| 0 <= p1 < nc && 0 <= q1 < hv_done(p1, p, q, nr) && #[trigger] g[q1]@[p1].in_col_u(j, l)
+            ==> K.rowval@[hv_slot(g, q1, p1, l, j)] == g[q1]@[p1].rowval@[j] + hv_rs(g, q1)
+    &&& forall|q1: int, p1: int, l: int, j: int| 0 <= p1 < nc && 0 <= q1 < hv_done(p1, p, q, nr) && #[trigger] g[q1]@[p1].in_col_u(j, l)
+            ==> K.nzval@[hv_slot(g, q1, p1, l, j)] == g[q1]@[p1].nzval@[j]
+}
+// where the slot of an entry lies
+pub proof fn lemma_hv_slot_range(g: Seq<&[&CscMatrix<F>]>, q: int, p: int, l: int, j: int)
+    requires hv_pre(g), 0 <= q < g.len(), 0 <= p < g[0]@.len(), g[q]@[p].in_col_u(j, l),
+    ensures
+        0 <= l < g[0]@[p].n,
+        0 <= hv_base(g, p) <= hv_st(g, p, l),
+        hv_st(g, p, l) + hv_cnt(g, p, l, q) <= hv_slot(g, q, p, l, j) < hv_st(g, p, l) + hv_cnt(g, p, l, q + 1),
+        hv_cnt(g, p, l, q) >= 0,
+        hv_st(g, p, l) + hv_cnt(g, p, l, q + 1) <= hv_st(g, p, l + 1),
+        hv_st(g, p, l + 1) <= hv_base(g, p + 1) <= hv_base(g, g[0]@.len() as int),
+{
+    let nr = g.len() as int; let nc = g[0]@.len() as int; let M = *g[q]@[p];
+    lemma_hv_block(g, q, p);
+    lemma_hv_st_mono(g, p, 0, l); lemma_hv_st_mono(g, p, l + 1, g[0]@[p].n as int);
+    lemma_hv_cnt_mono(g, p, l, 0, q); lemma_hv_cnt_mono(g, p, l, q + 1, nr);
+    lemma_hv_cnt_cps(g, p, l, nr);
+    lemma_hv_base_mono(g, p + 1, nc); lemma_hv_base_mono(g, p, p);
+    assert(hv_cnt(g, p, l, q + 1) == hv_cnt(g, p, l, q) + pcnt(*g[q]@[p], l));
+}
+#[verifier::spinoff_prover]
+pub proof fn lemma_hv_fill_pre(g: Seq<&[&CscMatrix<F>]>, st: Seq<usize>, K: CscMatrix<F>, p: int, q: int)
+    requires hv_pre(g), 0 <= p < g[0]@.len(), 0 <= q < g.len(), hv_starts_ok(g, st), hv_filled(g, st, K, p, q),
+    ensures
+        fill_block_pre(K, *g[q]@[p], hv_rs(g, q) as usize, hv_cs(g, p) as usize, MatrixShape::N),
+        0 <= hv_rs(g, q) <= usize::MAX, 0 <= hv_cs(g, p) <= usize::MAX, g[q]@[p].colptr_ok_u(), K.arrays_ok(),
+{
+    let nr = g.len() as int; let nc = g[0]@.len() as int; let M = *g[q]@[p]; let cs = hv_cs(g, p);
+    lemma_hv_block(g, q, p);
+    lemma_hv_mono(g, p + 1, nc); lemma_hv_mono(g, p, p); lemma_hv_mono(g, q + 1, nr); lemma_hv_mono(g, q, q);
+    assert forall|i: int, j: int| #[trigger] M.in_col_u(j, i) implies dest_n(K, M, cs, i, j) == hv_slot(g, q, p, i, j) && dest_n(K, M, cs, i, j) < K.rowval@.len() by {
+        assert(hslot(p, i));
+        lemma_hv_slot_range(g, q, p, i, j);
+    }
+    assert forall|i1: int, j1: int, i2: int, j2: int| #[trigger] M.in_col_u(j1, i1) && #[trigger] M.in_col_u(j2, i2) && j1 != j2
+        implies dest_n(K, M, cs, i1, j1) != dest_n(K, M, cs, i2, j2) by {
+        lemma_hv_slot_range(g, q, p, i1, j1); lemma_hv_slot_range(g, q, p, i2, j2);
+        assert(dest_n(K, M, cs, i1, j1) == hv_slot(g, q, p, i1, j1)); assert(dest_n(K, M, cs, i2, j2) == hv_slot(g, q, p, i2, j2));
+        if i1 < i2 { lemma_hv_st_mono(g, p, i1 + 1, i2); } else if i2 < i1 { lemma_hv_st_mono(g, p, i2 + 1, i1); }
+    }
+    assert forall|k: int| 0 <= k < M.rowval@.len() implies #[trigger] M.rowval@[k] + hv_rs(g, q) <= usize::MAX by { }
+}
+// the slot of an entry placed earlier is not a destination of any entry of block (q, p)
+pub proof fn lemma_hv_free(g: Seq<&[&CscMatrix<F>]>, st: Seq<usize>, K1: CscMatrix<F>, p: int, q: int, q1: int, p1: int, l: int, j: int)
+    requires
+        hv_pre(g), 0 <= p < g[0]@.len(), 0 <= q < g.len(), hv_starts_ok(g, st), hv_filled(g, st, K1, p, q),
+        0 <= p1 < g[0]@.len(), 0 <= q1 < hv_done(p1, p, q, g.len() as int), g[q1]@[p1].in_col_u(j, l),
+    ensures fb_free(K1, *g[q]@[p], hv_cs(g, p), MatrixShape::N, g[q]@[p].rowval@.len() as int, hv_slot(g, q1, p1, l, j)),
+{
+    reveal(fb_free);
+    let nr = g.len() as int; let nc = g[0]@.len() as int; let M = *g[q]@[p]; let cs = hv_cs(g, p);
+    let s = hv_slot(g, q1, p1, l, j);
+    lemma_hv_block(g, q, p);
+    lemma_hv_slot_range(g, q1, p1, l, j);
+    assert forall|i2: int, j2: int| #[trigger] M.in_col_u(j2, i2) && j2 < M.rowval@.len() implies fb_dest(K1, M, cs, MatrixShape::N, i2, j2) != s by {
+        assert(hslot(p, i2));
+        lemma_hv_slot_range(g, q, p, i2, j2);
+        assert(fb_dest(K1, M, cs, MatrixShape::N, i2, j2) == hv_slot(g, q, p, i2, j2));
+        if p1 < p { lemma_hv_base_mono(g, p1 + 1, p); }
+        else if l == i2 { lemma_hv_cnt_mono(g, p, l, q1 + 1, q); }
+        else if l < i2 { lemma_hv_st_mono(g, p, l + 1, i2); }
+        else { lemma_hv_st_mono(g, p, i2 + 1, l); }
+    }
+}
+#[verifier::spinoff_prover]
+pub proof fn lemma_hv_fill_step(g: Seq<&[&CscMatrix<F>]>, st: Seq<usize>, K1: CscMatrix<F>, K2: CscMatrix<F>, map: Seq<usize>, p: int, q: int)
+    requires
+        hv_pre(g), 0 <= p < g[0]@.len(), 0 <= q < g.len(), hv_starts_ok(g, st), hv_filled(g, st, K1, p, q),
+        fill_block_state(K1, K2, *g[q]@[p], map, hv_rs(g, q) as usize, hv_cs(g, p) as usize, MatrixShape::N, g[q]@[p].rowval@.len() as int),
+        K2.arrays_ok(), K2.rowval@.len() == K1.rowval@.len(), K2.colptr@.len() == K1.colptr@.len(),
+    ensures hv_filled(g, st, K2, p, q + 1),
+{
+    let nr = g.len() as int; let nc = g[0]@.len() as int; let M = *g[q]@[p]; let cs = hv_cs(g, p); let nnz = M.rowval@.len() as int;
+    lemma_hv_block(g, q, p);
+    lemma_hv_mono(g, p + 1, nc); lemma_hv_mono(g, p, p); lemma_hv_mono(g, q + 1, nr); lemma_hv_mono(g, q, q);
+    assert forall|p1: int, l: int| #[trigger] hslot(p1, l) && 0 <= p1 < nc && 0 <= l < g[0]@[p1].n
+        implies K2.colptr@[hv_cs(g, p1) + l] == st[hv_cs(g, p1) + l] + hv_cnt(g, p1, l, hv_done(p1, p, q + 1, nr)) by {
+        assert(K1.colptr@[hv_cs(g, p1) + l] == st[hv_cs(g, p1) + l] + hv_cnt(g, p1, l, hv_done(p1, p, q, nr)));
+        if p1 == p {
+            assert(K2.colptr@[cs + l] == K1.colptr@[cs + l] + pushed_n(M, l, nnz));
+            assert(M.colptr@[l + 1] <= M.colptr@[M.n as int]);
+            assert(hv_cnt(g, p, l, q + 1) == hv_cnt(g, p, l, q) + pcnt(*g[q]@[p], l));
+        } else {
+            lemma_hv_col_sep(g, p1, l, p);
+            assert(K2.colptr@[hv_cs(g, p1) + l] == K1.colptr@[hv_cs(g, p1) + l]);
+        }
+    }
+    assert(K2.colptr@[hv_cs(g, nc)] == K1.colptr@[hv_cs(g, nc)]);
+    assert forall|q1: int, p1: int, l: int, j: int| 0 <= p1 < nc && 0 <= q1 < hv_done(p1, p, q + 1, nr) && #[trigger] g[q1]@[p1].in_col_u(j, l)
+        implies K2.rowval@[hv_slot(g, q1, p1, l, j)] == g[q1]@[p1].rowval@[j] + hv_rs(g, q1)
+             && K2.nzval@[hv_slot(g, q1, p1, l, j)] == g[q1]@[p1].nzval@[j] by {
+        let s = hv_slot(g, q1, p1, l, j);
+        lemma_hv_slot_range(g, q1, p1, l, j);
+        if p1 == p && q1 == q {
+            assert(M.in_col_u(j, l));
+            assert(hslot(p, l));
+            assert(dest_n(K1, M, cs, l, j) == s);
+        } else {
+            assert(q1 < hv_done(p1, p, q, nr));
+            lemma_hv_free(g, st, K1, p, q, q1, p1, l, j);
+            assert(K1.rowval@[s] == g[q1]@[p1].rowval@[j] + hv_rs(g, q1));
+            assert(K1.nzval@[s] == g[q1]@[p1].nzval@[j]);
+        }
+    }
+}
+pub proof fn lemma_hv_filled_next(g: Seq<&[&CscMatrix<F>]>, st: Seq<usize>, K: CscMatrix<F>, p: int)
+    requires hv_filled(g, st, K, p, g.len() as int), g.len() >= 1,
+    ensures hv_filled(g, st, K, p + 1, 0),
+{
+    let nr = g.len() as int; let nc = g[0]@.len() as int;
+    assert forall|p1: int| hv_done(p1, p + 1, 0, nr) == hv_done(p1, p, nr, nr) by { }
+    assert forall|p1: int, l: int| #[trigger] hslot(p1, l) && 0 <= p1 < nc && 0 <= l < g[0]@[p1].n
+        implies K.colptr@[hv_cs(g, p1) + l] == st[hv_cs(g, p1) + l] + hv_cnt(g, p1, l, hv_done(p1, p + 1, 0, nr)) by {
+        assert(hv_done(p1, p + 1, 0, nr) == hv_done(p1, p, nr, nr));
+    }
+    assert forall|q1: int, p1: int, l: int, j: int| 0 <= p1 < nc && 0 <= q1 < hv_done(p1, p + 1, 0, nr) && #[trigger] g[q1]@[p1].in_col_u(j, l)
+        implies K.rowval@[hv_slot(g, q1, p1, l, j)] == g[q1]@[p1].rowval@[j] + hv_rs(g, q1) && K.nzval@[hv_slot(g, q1, p1, l, j)] == g[q1]@[p1].nzval@[j] by {
+        assert(hv_done(p1, p + 1, 0, nr) == hv_done(p1, p, nr, nr));
+    }
+}
+#[verifier::spinoff_prover]
+pub proof fn lemma_hv_final(g: Seq<&[&CscMatrix<F>]>, st: Seq<usize>, K: CscMatrix<F>, R: CscMatrix<F>)
+    requires
+        hv_pre(g), hv_starts_ok(g, st), hv_filled(g, st, K, g[0]@.len() as int, 0), st[0] == 0,
+        // backshift_colptrs (its contract)
+        R.colptr@.len() == K.colptr@.len(), R.colptr@[0] == 0, R.rowval@ == K.rowval@, R.nzval@ == K.nzval@, R.m == K.m, R.n == K.n,
+        forall|c: int| 1 <= c < K.colptr@.len() ==> #[trigger] R.colptr@[c] == K.colptr@[c - 1],
+        K.m == hv_rs(g, g.len() as int), K.n == hv_cs(g, g[0]@.len() as int),
+    ensures hv_post(g, R),
+{
+    let nr = g.len() as int; let nc = g[0]@.len() as int;
+    assert forall|c: int| 0 <= c < st.len() implies R.colptr@[c] == st[c] by {
+        if c >= 1 {
+            let pl = lemma_hv_col_block(g, nc, c - 1);
+            let p = pl.0; let l = pl.1;
+            assert(hslot(p, l)); assert(hslot(p, l + 1));
+            lemma_hv_block(g, 0, p);
+            lemma_hv_cnt_cps(g, p, l, nr);
+            assert(K.colptr@[hv_cs(g, p) + l] == st[hv_cs(g, p) + l] + hv_cnt(g, p, l, nr));
+            assert(st[hv_cs(g, p) + (l + 1)] == hv_st(g, p, l + 1));
+            assert(st[hv_cs(g, p) + l] == hv_st(g, p, l));
+        }
+    }
+    assert forall|p: int, l: int| 0 <= p < nc && 0 <= l <= g[0]@[p].n implies #[trigger] R.colptr@[hv_cs(g, p) + l] == hv_st(g, p, l) by {
+        assert(hslot(p, l));
+        lemma_hv_block(g, 0, p);
+        lemma_hv_mono(g, p + 1, nc); lemma_hv_mono(g, p, p);
+    }
+    assert forall|q: int, p: int, l: int, j: int| 0 <= q < nr && 0 <= p < nc && #[trigger] g[q]@[p].in_col_u(j, l) implies ({
+            let d = hv_st(g, p, l) + hv_cnt(g, p, l, q) + (j - g[q]@[p].colptr@[l]);
+            0 <= d < R.rowval@.len() && R.rowval@[d] == g[q]@[p].rowval@[j] + hv_rs(g, q) && R.nzval@[d] == g[q]@[p].nzval@[j] }) by {
+        lemma_hv_slot_range(g, q, p, l, j);
+        assert(hv_done(p, nc, 0, nr) == nr);
+        assert(K.rowval@[hv_slot(g, q, p, l, j)] == g[q]@[p].rowval@[j] + hv_rs(g, q));
+        assert(K.nzval@[hv_slot(g, q, p, l, j)] == g[q]@[p].nzval@[j]);
+    }
+}
+// the running total of the first (nnz) loop and its end value
+pub proof fn lemma_hv_rownnz_mono(g: Seq<&[&CscMatrix<F>]>, q: int, a: int, b: int)
+    requires 0 <= a <= b,
+    ensures 0 <= hv_rownnz(g, q, a) <= hv_rownnz(g, q, b),
+    decreases b,
+{ if a < b { lemma_hv_rownnz_mono(g, q, a, b - 1); } else if a > 0 { lemma_hv_rownnz_mono(g, q, a - 1, a - 1); } }
+pub proof fn lemma_hv_tot_mono(g: Seq<&[&CscMatrix<F>]>, a: int, b: int)
+    requires 0 <= a <= b,
+    ensures 0 <= hv_tot(g, a) <= hv_tot(g, b),
+    decreases b,
+{
+    if a < b { lemma_hv_tot_mono(g, a, b - 1); lemma_hv_rownnz_mono(g, b - 1, 0, g[0]@.len() as int); }
+    else if a > 0 { lemma_hv_tot_mono(g, a - 1, a - 1); lemma_hv_rownnz_mono(g, a - 1, 0, g[0]@.len() as int); }
+}
+pub proof fn lemma_hv_tot_rows(g: Seq<&[&CscMatrix<F>]>, q: int)
+    requires 0 <= q,
+    ensures hv_tot(g, q) == hv_part_rows(g, q, g[0]@.len() as int),
+    decreases q,
+{ if q > 0 { lemma_hv_tot_rows(g, q - 1); } }
+pub proof fn lemma_hv_base_cols(g: Seq<&[&CscMatrix<F>]>, p: int)
+    requires 0 <= p,
+    ensures hv_base(g, p) == hv_part_cols(g, g.len() as int, p),
+    decreases p,
+{ if p > 0 { lemma_hv_base_cols(g, p - 1); } }
+pub proof fn lemma_hv_tot_base(g: Seq<&[&CscMatrix<F>]>)
+    ensures hv_tot(g, g.len() as int) == hv_base(g, g[0]@.len() as int),
+{
+    lemma_hv_tot_rows(g, g.len() as int); lemma_hv_base_cols(g, g[0]@.len() as int); lemma_hv_fubini(g, g.len() as int, g[0]@.len() as int);
+}
+
+
+// ---- hcat / vcat: the 1 x 2 and 2 x 1 grids ----
+pub open spec fn cat_ok(A: CscMatrix<F>, B: CscMatrix<F>) -> bool {
+    bd_blk_ok(A) && bd_blk_ok(B) && A.m + B.m <= usize::MAX && A.n + B.n < usize::MAX && 2 * (A.rowval@.len() + B.rowval@.len()) <= usize::MAX
+}
+pub open spec fn is_hgrid(g: Seq<&[&CscMatrix<F>]>, A: &CscMatrix<F>, B: &CscMatrix<F>) -> bool { g.len() == 1 && g[0]@.len() == 2 && g[0]@[0] == A && g[0]@[1] == B }
+pub open spec fn is_vgrid(g: Seq<&[&CscMatrix<F>]>, A: &CscMatrix<F>, B: &CscMatrix<F>) -> bool { g.len() == 2 && g[0]@.len() == 1 && g[1]@.len() == 1 && g[0]@[0] == A && g[1]@[0] == B }
+pub open spec fn hcat_post(A: CscMatrix<F>, B: CscMatrix<F>, R: CscMatrix<F>) -> bool {
+    let na = A.rowval@.len() as int; let nb = B.rowval@.len() as int;
+    &&& R.m == A.m && R.n == A.n + B.n && R.colptr@.len() == R.n + 1 && R.rowval@.len() == na + nb && R.nzval@.len() == na + nb
+    &&& forall|c: int| 0 <= c <= A.n ==> #[trigger] R.colptr@[c] == A.colptr@[c]
+    &&& forall|c: int| 0 <= c <= B.n ==> R.colptr@[A.n + c] == na + #[trigger] B.colptr@[c]
+    &&& forall|j: int| 0 <= j < na ==> R.rowval@[j] == #[trigger] A.rowval@[j]
+    &&& forall|j: int| 0 <= j < na ==> R.nzval@[j] == #[trigger] A.nzval@[j]
+    &&& forall|j: int| 0 <= j < nb ==> R.rowval@[na + j] == #[trigger] B.rowval@[j]
+    &&& forall|j: int| 0 <= j < nb ==> R.nzval@[na + j] == #[trigger] B.nzval@[j]
+}
+pub open spec fn vcat_post(A: CscMatrix<F>, B: CscMatrix<F>, R: CscMatrix<F>) -> bool {
+    let na = A.rowval@.len() as int; let nb = B.rowval@.len() as int;
+    &&& R.m == A.m + B.m && R.n == A.n && R.colptr@.len() == R.n + 1 && R.rowval@.len() == na + nb && R.nzval@.len() == na + nb
+    &&& forall|c: int| 0 <= c <= A.n ==> #[trigger] R.colptr@[c] == A.colptr@[c] + B.colptr@[c]
+    &&& forall|c: int, j: int| #[trigger] A.in_col_u(j, c) ==> R.rowval@[B.colptr@[c] + j] == A.rowval@[j] && R.nzval@[B.colptr@[c] + j] == A.nzval@[j]
+    &&& forall|c: int, j: int| #[trigger] B.in_col_u(j, c) ==> R.rowval@[A.colptr@[c + 1] + j] == B.rowval@[j] + A.m && R.nzval@[A.colptr@[c + 1] + j] == B.nzval@[j]
+}
+pub proof fn lemma_hgrid(g: Seq<&[&CscMatrix<F>]>, A: &CscMatrix<F>, B: &CscMatrix<F>)
+    requires is_hgrid(g, A, B), A.m == B.m ==> cat_ok(*A, *B),
+    ensures
+        grid_ok(g) <==> A.m == B.m, grid_ok(g) ==> hv_pre(g),
+        hv_rs(g, 1) == A.m, hv_cs(g, 1) == A.n, hv_cs(g, 2) == A.n + B.n, hv_base(g, 1) == A.rowval@.len(), hv_base(g, 2) == A.rowval@.len() + B.rowval@.len(),
+        forall|l: int| hv_cps(g, 0, l, 1) == A.colptr@[l] && hv_cps(g, 1, l, 1) == B.colptr@[l],
+        forall|p: int, l: int| hv_cnt(g, p, l, 0) == 0,
+{
+    reveal_with_fuel(hv_rs, 3); reveal_with_fuel(hv_cs, 3); reveal_with_fuel(hv_base, 3); reveal_with_fuel(hv_colnnz, 3); reveal_with_fuel(hv_cps, 3);
+    if A.m == B.m {
+        assert(grid_ok(g)) by {
+            assert forall|q: int, p: int| 0 <= q < g.len() && 0 <= p < g[0]@.len() implies (#[trigger] g[q]@[p]).m == g[q]@[0].m && g[q]@[p].n == g[0]@[p].n by { }
+        }
+        assert forall|q: int, p: int| 0 <= q < g.len() && 0 <= p < g[0]@.len() implies bd_blk_ok(*#[trigger] g[q]@[p]) by { }
+    } else {
+        if grid_ok(g) { assert(g[0]@[1].m == g[0]@[0].m); }
+    }
+}
+pub proof fn lemma_hcat_post(g: Seq<&[&CscMatrix<F>]>, A: &CscMatrix<F>, B: &CscMatrix<F>, R: CscMatrix<F>)
+    requires is_hgrid(g, A, B), A.m == B.m, cat_ok(*A, *B), hv_post(g, R),
+    ensures hcat_post(*A, *B, R),
+{
+    lemma_hgrid(g, A, B);
+    let na = A.rowval@.len() as int; let nb = B.rowval@.len() as int;
+    assert(hv_cs(g, 0) == 0);
+    assert forall|c: int| 0 <= c <= A.n implies #[trigger] R.colptr@[c] == A.colptr@[c] by {
+        assert(R.colptr@[hv_cs(g, 0) + c] == hv_st(g, 0, c)); assert(hv_base(g, 0) == 0);
+    }
+    assert forall|c: int| 0 <= c <= B.n implies R.colptr@[A.n + c] == na + #[trigger] B.colptr@[c] by {
+        assert(R.colptr@[hv_cs(g, 1) + c] == hv_st(g, 1, c));
+    }
+    assert(hv_base(g, 0) == 0); assert(hv_rs(g, 0) == 0);
+    assert forall|j: int| 0 <= j < na implies R.rowval@[j] == #[trigger] A.rowval@[j] by { let l = lemma_col_of_entry(*A, j); assert(g[0]@[0].in_col_u(j, l)); }
+    assert forall|j: int| 0 <= j < na implies R.nzval@[j] == #[trigger] A.nzval@[j] by { let l = lemma_col_of_entry(*A, j); assert(g[0]@[0].in_col_u(j, l)); }
+    assert forall|j: int| 0 <= j < nb implies R.rowval@[na + j] == #[trigger] B.rowval@[j] by { let l = lemma_col_of_entry(*B, j); assert(g[0]@[1].in_col_u(j, l)); }
+    assert forall|j: int| 0 <= j < nb implies R.nzval@[na + j] == #[trigger] B.nzval@[j] by { let l = lemma_col_of_entry(*B, j); assert(g[0]@[1].in_col_u(j, l)); }
+    assert(R.m == hv_rs(g, g.len() as int) && R.n == hv_cs(g, g[0]@.len() as int));
+    assert(R.rowval@.len() == hv_base(g, g[0]@.len() as int) && R.nzval@.len() == hv_base(g, g[0]@.len() as int));
+    assert(R.m == A.m && R.n == A.n + B.n && R.colptr@.len() == R.n + 1 && R.rowval@.len() == na + nb && R.nzval@.len() == na + nb);
+}
+pub proof fn lemma_vgrid(g: Seq<&[&CscMatrix<F>]>, A: &CscMatrix<F>, B: &CscMatrix<F>)
+    requires is_vgrid(g, A, B), A.n == B.n ==> cat_ok(*A, *B),
+    ensures
+        grid_ok(g) <==> A.n == B.n, grid_ok(g) ==> hv_pre(g),
+        hv_rs(g, 1) == A.m, hv_rs(g, 2) == A.m + B.m, hv_cs(g, 1) == A.n, hv_base(g, 1) == A.rowval@.len() + B.rowval@.len(),
+        forall|l: int| hv_cps(g, 0, l, 2) == A.colptr@[l] + B.colptr@[l],
+        forall|l: int| hv_cnt(g, 0, l, 0) == 0 && hv_cnt(g, 0, l, 1) == pcnt(*A, l),
+{
+    reveal_with_fuel(hv_rs, 3); reveal_with_fuel(hv_cs, 3); reveal_with_fuel(hv_base, 3); reveal_with_fuel(hv_colnnz, 3); reveal_with_fuel(hv_cps, 3); reveal_with_fuel(hv_cnt, 3);
+    if A.n == B.n {
+        assert(grid_ok(g)) by {
+            assert forall|q: int| 0 <= q < g.len() implies (#[trigger] g[q])@.len() == g[0]@.len() by { }
+            assert forall|q: int, p: int| 0 <= q < g.len() && 0 <= p < g[0]@.len() implies (#[trigger] g[q]@[p]).m == g[q]@[0].m && g[q]@[p].n == g[0]@[p].n by { }
+        }
+        assert forall|q: int, p: int| 0 <= q < g.len() && 0 <= p < g[0]@.len() implies bd_blk_ok(*#[trigger] g[q]@[p]) by { }
+    } else {
+        if grid_ok(g) { assert(g[1]@[0].n == g[0]@[0].n); }
+    }
+}
+pub proof fn lemma_vcat_post(g: Seq<&[&CscMatrix<F>]>, A: &CscMatrix<F>, B: &CscMatrix<F>, R: CscMatrix<F>)
+    requires is_vgrid(g, A, B), A.n == B.n, cat_ok(*A, *B), hv_post(g, R),
+    ensures vcat_post(*A, *B, R),
+{
+    lemma_vgrid(g, A, B);
+    assert(hv_cs(g, 0) == 0); assert(hv_base(g, 0) == 0); assert(hv_rs(g, 0) == 0);
+    assert forall|c: int| 0 <= c <= A.n implies #[trigger] R.colptr@[c] == A.colptr@[c] + B.colptr@[c] by {
+        assert(R.colptr@[hv_cs(g, 0) + c] == hv_st(g, 0, c));
+    }
+    assert forall|c: int, j: int| #[trigger] A.in_col_u(j, c) implies R.rowval@[B.colptr@[c] + j] == A.rowval@[j] && R.nzval@[B.colptr@[c] + j] == A.nzval@[j] by {
+        assert(g[0]@[0].in_col_u(j, c));
+    }
+    assert forall|c: int, j: int| #[trigger] B.in_col_u(j, c) implies R.rowval@[A.colptr@[c + 1] + j] == B.rowval@[j] + A.m && R.nzval@[A.colptr@[c + 1] + j] == B.nzval@[j] by {
+        assert(g[1]@[0].in_col_u(j, c));
+    }
+}
 
 // ---- fill_block: abstract cursor discipline
 impl CscMatrix<F> {
